@@ -50,6 +50,10 @@ pub struct ClientCase {
     /// the server's abrupt drops are TCP resets (SO_LINGER 0: the client sees ECONNRESET, a retryable reason) instead of FINs
     #[serde(default)]
     pub tcp_reset: bool,
+    /// wss: the tunnel runs over TLS (the fake server presents a certificate for 127.0.0.1 under a CA the client is given);
+    /// connections cut before or during the TLS handshake are retryable failures like any other
+    #[serde(default)]
+    pub tls: bool,
 }
 
 pub fn rt() -> &'static tokio::runtime::Runtime {
@@ -68,13 +72,36 @@ pub fn tmp_dir() -> PathBuf {
     p
 }
 
+/// plain TCP or TLS over TCP, behind one type
+pub trait AsyncRw: tokio::io::AsyncRead + tokio::io::AsyncWrite + Unpin + Send {}
+impl<T: tokio::io::AsyncRead + tokio::io::AsyncWrite + Unpin + Send> AsyncRw for T {}
+pub type DynStream = Box<dyn AsyncRw>;
+
+/// server identity of the wss cases: one CA and one leaf for 127.0.0.1, generated once per process
+pub struct TlsFix {
+    pub cfg: Arc<rustls::ServerConfig>,
+    pub ca_path: String,
+    _files: crate::c17::Files,
+}
+pub fn tls_fix() -> &'static TlsFix {
+    static F: OnceLock<TlsFix> = OnceLock::new();
+    F.get_or_init(|| {
+        let files = crate::c17::Files::new();
+        let ca = crate::c17::make_ca("c19 ca", 0);
+        let leaf = crate::c17::make_leaf(&["127.0.0.1".to_string()], "c19 leaf", Some(&ca), 0, false);
+        let (cp, kp, ca_path) = (files.write("cert.pem", &leaf.0), files.write("key.pem", &leaf.1), files.write("ca.pem", &ca.pem));
+        let cfg = rt().block_on(rusty_penguin_lib::tls::make_server_config(&cp, &kp, None)).expect("server config");
+        TlsFix { cfg: Arc::new(cfg), ca_path, _files: files }
+    })
+}
+
 #[derive(Debug, Default)]
 pub struct Obs {
     /// time of each accepted connection attempt (ms since start), and when its failure was made visible to the client
     pub attempts: Vec<(u64, Attempt, Option<u64>)>,
 }
 
-async fn serve_mux(ws: tokio_tungstenite::WebSocketStream<tokio::net::TcpStream>, how: Attempt, obs: Arc<Mutex<Obs>>, idx: usize, t0: Instant) {
+async fn serve_mux(ws: tokio_tungstenite::WebSocketStream<DynStream>, how: Attempt, obs: Arc<Mutex<Obs>>, idx: usize, t0: Instant) {
     let mut js = tokio::task::JoinSet::new();
     let mux = Multiplexor::new_with_opt(ws, penguin_mux::config::Options::new(), Some(&mut js));
     let mux = Arc::new(mux);
@@ -121,7 +148,7 @@ async fn serve_mux(ws: tokio_tungstenite::WebSocketStream<tokio::net::TcpStream>
     }
 }
 
-async fn fake_server(listener: TcpListener, script: Vec<Attempt>, obs: Arc<Mutex<Obs>>, t0: Instant, tcp_reset: bool) {
+async fn fake_server(listener: TcpListener, script: Vec<Attempt>, obs: Arc<Mutex<Obs>>, t0: Instant, tcp_reset: bool, tls: Option<Arc<rustls::ServerConfig>>) {
     let mut n = 0usize;
     let mut held = vec![];
     loop {
@@ -145,6 +172,13 @@ async fn fake_server(listener: TcpListener, script: Vec<Attempt>, obs: Arc<Mutex
             }
             Attempt::AcceptAndStall => held.push(stream),
             Attempt::Http403 => {
+                let mut stream: DynStream = match &tls {
+                    None => Box::new(stream),
+                    Some(cfg) => match tokio_rustls::TlsAcceptor::from(cfg.clone()).accept(stream).await {
+                        Ok(s) => Box::new(s),
+                        Err(_) => continue,
+                    },
+                };
                 let mut buf = [0u8; 2048];
                 let _ = tokio::time::timeout(Duration::from_millis(500), stream.read(&mut buf)).await;
                 stream.write_all(b"HTTP/1.1 403 Forbidden\r\ncontent-length: 0\r\nconnection: close\r\n\r\n").await.ok();
@@ -153,7 +187,15 @@ async fn fake_server(listener: TcpListener, script: Vec<Attempt>, obs: Arc<Mutex
             }
             Attempt::ServeThenClose(_) | Attempt::ServeThenDrop(_) | Attempt::Healthy | Attempt::HandshakeThenSilent | Attempt::SilentThenDrop(_) => {
                 let obs2 = obs.clone();
+                let tls2 = tls.clone();
                 tokio::spawn(async move {
+                    let stream: DynStream = match &tls2 {
+                        None => Box::new(stream),
+                        Some(cfg) => match tokio_rustls::TlsAcceptor::from(cfg.clone()).accept(stream).await {
+                            Ok(s) => Box::new(s),
+                            Err(_) => return,
+                        },
+                    };
                     let cb = |_req: &tokio_tungstenite::tungstenite::handshake::server::Request, mut resp: tokio_tungstenite::tungstenite::handshake::server::Response| {
                         resp.headers_mut().insert("sec-websocket-protocol", http::HeaderValue::from_static("penguin-v7"));
                         Ok(resp)
@@ -230,7 +272,7 @@ pub async fn run_client_case(c: &ClientCase) -> Result<RunOut, String> {
     let listener = TcpListener::bind("127.0.0.1:0").await.map_err(|e| format!("bind: {e}"))?;
     let port = listener.local_addr().unwrap().port();
     let obs = Arc::new(Mutex::new(Obs::default()));
-    let server = tokio::spawn(fake_server(listener, c.script.clone(), obs.clone(), t0, c.tcp_reset));
+    let server = tokio::spawn(fake_server(listener, c.script.clone(), obs.clone(), t0, c.tcp_reset, if c.tls { Some(tls_fix().cfg.clone()) } else { None }));
     let uds = tmp_dir().join(format!("c19-{}-{}.sock", std::process::id(), UNIQ.fetch_add(1, Ordering::Relaxed)));
     let _ = std::fs::remove_file(&uds);
     let udp_port = {
@@ -238,7 +280,8 @@ pub async fn run_client_case(c: &ClientCase) -> Result<RunOut, String> {
         s.local_addr().map_err(|e| e.to_string())?.port()
     };
     let args: &'static ClientArgs = Box::leak(Box::new(ClientArgs {
-        server: ServerUrl::from_str(&format!("ws://127.0.0.1:{port}/ws")).map_err(|e| format!("url: {e}"))?,
+        server: ServerUrl::from_str(&format!("{}://127.0.0.1:{port}/ws", if c.tls { "wss" } else { "ws" })).map_err(|e| format!("url: {e}"))?,
+        tls_ca: if c.tls { Some(tls_fix().ca_path.clone()) } else { None },
         remote: vec![
             Remote { local_addr: LocalSpec::DomainSocket(uds.clone()), remote_addr: RemoteSpec::Inet(("echo.invalid".to_string(), 7)), protocol: Protocol::Tcp },
             Remote { local_addr: LocalSpec::Inet(("127.0.0.1".to_string(), udp_port)), remote_addr: RemoteSpec::Inet(("echo.invalid".to_string(), 7)), protocol: Protocol::Udp },
@@ -520,6 +563,9 @@ fn max_consecutive_failures(s: &[Attempt]) -> u32 {
 }
 
 pub fn check(c: &ClientCase) -> Outcome {
+    if c.tls {
+        let _ = tls_fix(); // built outside the runtime
+    }
     let run = |c: &ClientCase| rt().block_on(run_client_case(c));
     let r = match run(c) {
         Ok(r) => r,
@@ -560,36 +606,44 @@ fn attempt() -> impl Strategy<Value = Attempt> {
 }
 
 fn client_case() -> impl Strategy<Value = ClientCase> {
+    // (any script may also run over TLS)
+    (client_case_plain(), prop::bool::weighted(0.3)).prop_map(|(mut c, tls)| {
+        c.tls = c.tls || tls;
+        c
+    })
+}
+
+fn client_case_plain() -> impl Strategy<Value = ClientCase> {
     prop_oneof![
         // reconnect scripts ending in a healthy server, with a local connection at some point
-        6 => (prop::collection::vec(attempt(), 0..5), 200u64..1000, prop_oneof![Just(0u32), 4u32..8], prop::option::weighted(0.8, 0u8..5), 0u16..300, (prop_oneof![3 => Just(0u16), 1 => Just(10u16), 1 => Just(70u16), 1 => Just(300u16)], any::<bool>())).prop_map(|(mut script, mri, mrc, la, ld, (burst, tcp_reset))| {
+        6 => (prop::collection::vec(attempt(), 0..5), 200u64..1000, prop_oneof![Just(0u32), 4u32..8], prop::option::weighted(0.8, 0u8..5), 0u16..300, (prop_oneof![3 => Just(0u16), 1 => Just(10u16), 1 => Just(70u16), 1 => Just(300u16)], any::<bool>(), prop::bool::weighted(0.4))).prop_map(|(mut script, mri, mrc, la, ld, (burst, tcp_reset, tls))| {
             // keep consecutive failures below the limit so that the healthy server is reached
             if mrc != 0 {
                 script.truncate(3);
             }
             let la = la.map(|x| x.min(script.len() as u8));
             script.push(Attempt::Healthy);
-            ClientCase { script, max_retry_count: mrc, max_retry_interval: mri, local_after_attempt: la, local_delay_ms: ld, udp_burst: burst, tcp_reset }
+            ClientCase { script, max_retry_count: mrc, max_retry_interval: mri, local_after_attempt: la, local_delay_ms: ld, udp_burst: burst, tcp_reset, tls }
         }),
         // a stalled stream request: handshake, then silence; the local connection must be served by the next connection
-        1 => (200u64..1000, 0u16..200).prop_map(|(mri, ld)| ClientCase { script: vec![Attempt::HandshakeThenSilent, Attempt::Healthy], max_retry_count: 0, max_retry_interval: mri, local_after_attempt: Some(0), local_delay_ms: ld, udp_burst: 0, tcp_reset: false }),
+        1 => (200u64..1000, 0u16..200).prop_map(|(mri, ld)| ClientCase { script: vec![Attempt::HandshakeThenSilent, Attempt::Healthy], max_retry_count: 0, max_retry_interval: mri, local_after_attempt: Some(0), local_delay_ms: ld, udp_burst: 0, tcp_reset: false, tls: false }),
         // a stream request is pending (never answered) when the connection is dropped: it must be parked and served by the next connection
-        2 => (200u64..1000, 30u16..400, 0u16..20, any::<bool>()).prop_map(|(mri, d, ld, tcp_reset)| ClientCase { script: vec![Attempt::SilentThenDrop(d), Attempt::Healthy], max_retry_count: 0, max_retry_interval: mri, local_after_attempt: Some(0), local_delay_ms: ld, udp_burst: 0, tcp_reset }),
+        2 => (200u64..1000, 30u16..400, 0u16..20, any::<bool>()).prop_map(|(mri, d, ld, tcp_reset)| ClientCase { script: vec![Attempt::SilentThenDrop(d), Attempt::Healthy], max_retry_count: 0, max_retry_interval: mri, local_after_attempt: Some(0), local_delay_ms: ld, udp_burst: 0, tcp_reset, tls: false }),
         // giving up after max_retry_count
         2 => (1u32..=4, 200u64..700, prop::bool::weighted(0.2)).prop_map(|(mrc, mri, stall)| {
             let mut script = vec![Attempt::AcceptAndDrop; mrc as usize + 2];
             if stall {
                 script[0] = Attempt::AcceptAndStall;
             }
-            ClientCase { script, max_retry_count: mrc, max_retry_interval: mri, local_after_attempt: None, local_delay_ms: 0, udp_burst: 0, tcp_reset: false }
+            ClientCase { script, max_retry_count: mrc, max_retry_interval: mri, local_after_attempt: None, local_delay_ms: 0, udp_burst: 0, tcp_reset: false, tls: false }
         }),
         // never giving up with max_retry_count = 0
-        1 => (200u64..500).prop_map(|mri| ClientCase { script: vec![Attempt::AcceptAndDrop; 6], max_retry_count: 0, max_retry_interval: mri, local_after_attempt: None, local_delay_ms: 0, udp_burst: 0, tcp_reset: false }),
+        1 => (200u64..500).prop_map(|mri| ClientCase { script: vec![Attempt::AcceptAndDrop; 6], max_retry_count: 0, max_retry_interval: mri, local_after_attempt: None, local_delay_ms: 0, udp_burst: 0, tcp_reset: false, tls: false }),
         // non-retryable answer
         1 => (prop::collection::vec(Just(Attempt::AcceptAndDrop), 0..3), 200u64..800).prop_map(|(mut script, mri)| {
             script.push(Attempt::Http403);
             script.push(Attempt::Healthy);
-            ClientCase { script, max_retry_count: 0, max_retry_interval: mri, local_after_attempt: None, local_delay_ms: 0, udp_burst: 0, tcp_reset: false }
+            ClientCase { script, max_retry_count: 0, max_retry_interval: mri, local_after_attempt: None, local_delay_ms: 0, udp_burst: 0, tcp_reset: false, tls: false }
         }),
     ]
 }
@@ -618,7 +672,7 @@ pub fn run(ctx: &Ctx, rep: &mut Report) {
         |i| {
             let served = if i % 2 == 0 { Attempt::ServeThenClose(40 + 20 * (i as u16 / 4)) } else { Attempt::ServeThenDrop(40 + 20 * (i as u16 / 4)) };
             let mri = if (i / 2) % 2 == 0 { 3200 } else { 1600 };
-            ClientCase { script: vec![Attempt::AcceptAndDrop, Attempt::AcceptAndDrop, Attempt::AcceptAndDrop, served, Attempt::AcceptAndDrop, Attempt::Healthy], max_retry_count: 0, max_retry_interval: mri, local_after_attempt: Some(4), local_delay_ms: 10, udp_burst: if i % 2 == 0 { 200 } else { 0 }, tcp_reset: (i / 2) % 2 == 1 }
+            ClientCase { script: vec![Attempt::AcceptAndDrop, Attempt::AcceptAndDrop, Attempt::AcceptAndDrop, served, Attempt::AcceptAndDrop, Attempt::Healthy], max_retry_count: 0, max_retry_interval: mri, local_after_attempt: Some(4), local_delay_ms: 10, udp_burst: if i % 2 == 0 { 200 } else { 0 }, tcp_reset: (i / 2) % 2 == 1, tls: i % 4 == 3 }
         },
         check,
     );
